@@ -243,10 +243,12 @@ static void exec_rw(void)
 	new_pump(lens[mc_choose(7, MC_CONFIG, "len")], 0);
 	mc_obs("L=%ld relay=%d", L, relay_eof);
 	r = drive_rw();
-	if (r == 0)
+	if (r <= 0) {
 		iv_fd_pump_destroy(ip);
-	else if (r < 0)
-		iv_fd_pump_destroy(ip);
+		if (band_in || band_out)
+			mc_fail("pump-bands", "after iv_fd_pump_destroy() (pump had %s) the bands (in=%d,out=%d) are still requested",
+				r == 0 ? "completed" : "failed", band_in, band_out);
+	}
 	free_pump();
 	/* second pump in the same thread: buffer cache reuse must not leak stale bytes */
 	pump_idx = 1;
@@ -340,6 +342,29 @@ static int sink_has_data(void)
 	return n > 0;
 }
 
+static int kicks_left, arrivals_left;
+
+/* between the would-block result of the input splice and whatever the pump does next, a byte arrives */
+static void after_eagain(const char *what, int fd)
+{
+	(void)what;
+	if (fd != s_from_r || arrivals_left <= 0 || writer_closed)
+		return;
+	if (mc_choose(2, MC_STIM, "arrives-after-eagain")) {
+		arrivals_left--;
+		mc_obs("arrival-inside-pump-call");
+		do_feed(1);
+	}
+}
+
+/* pipe2() goes missing at any of its calls (sticky), e.g. a seccomp profile applied after start-up */
+static int pipe2_fault(int sc)
+{
+	if (sc != ENV_SC_PIPE2)
+		return 0;
+	return mc_choose(2, MC_FAULT, "pipe2-enosys") ? ENOSYS : 0;
+}
+
 static void exec_splice(void)
 {
 	static const long feeds[] = { 1, 4096, 70000 };
@@ -347,8 +372,12 @@ static void exec_splice(void)
 	long first;
 
 	env_init();
+	kicks_left = mc_arg_int("kicks", 1);
+	env_after_eagain_hook = after_eagain;
 	if (mc_arg_int("no_pipe2", 0))
 		env_sc_errno[ENV_SC_PIPE2] = ENOSYS;
+	if (mc_arg_int("sc_fault", 0))
+		env_sc_fault_hook = pipe2_fault;
 	relay_eof = mc_choose(2, MC_CONFIG, "relay_eof");
 	fk = mc_choose(2, MC_CONFIG, "from-kind");
 	tk = mc_choose(2, MC_CONFIG, "to-kind");
@@ -374,8 +403,8 @@ static void exec_splice(void)
 		int can_pump = (band_in && ready(s_from_r, POLLIN)) || (band_out && ready(s_to_w, POLLOUT));
 		int nat, c, ret;
 		/* natural next step of the environment */
-		enum { S_FEED1, S_FEED4K, S_FEEDBIG, S_PUMP, S_DRAIN1, S_DRAIN4K, S_DRAINALL, S_CLOSEW, S_CLOSESINK, S_DESTROY, NS };
-		static const char *sn[NS] = { "feed1", "feed4096", "feed70000", "pump", "drain1", "drain4096", "drainall", "closew", "closesink", "destroy" };
+		enum { S_FEED1, S_FEED4K, S_FEEDBIG, S_PUMP, S_DRAIN1, S_DRAIN4K, S_DRAINALL, S_CLOSEW, S_CLOSESINK, S_DESTROY, S_KICK, NS };
+		static const char *sn[NS] = { "feed1", "feed4096", "feed70000", "pump", "drain1", "drain4096", "drainall", "closew", "closesink", "destroy", "kick" };
 		int ok[NS];
 		int order[NS], no = 0, i;
 
@@ -385,6 +414,8 @@ static void exec_splice(void)
 		ok[S_CLOSEW] = !writer_closed;
 		ok[S_CLOSESINK] = !sink_reader_closed && mc_arg_int("errors", 1);
 		ok[S_DESTROY] = 1;
+		/* a pump call although no requested band is ready (an initial kick, a stale wake-up): must be harmless */
+		ok[S_KICK] = !can_pump && kicks_left > 0;
 		if (fed == 0 && !writer_closed)
 			nat = first == 1 ? S_FEED1 : first == 4096 ? S_FEED4K : S_FEEDBIG;
 		else if (can_pump)
@@ -423,6 +454,10 @@ static void exec_splice(void)
 				mc_fail("pump-bands", "destroy of an unfinished pump did not clear the requested bands");
 			destroyed = 1;
 			break;
+		case S_KICK:
+			kicks_left--;
+			arrivals_left = 1;
+			/* fall through */
 		case S_PUMP: {
 			int b0 = ip->bytes, sp0 = 0, kp0 = 0, sp1 = 0, kp1 = 0;
 			ioctl(s_from_r, FIONREAD, &sp0);
@@ -430,6 +465,7 @@ static void exec_splice(void)
 				ioctl(s_to_r, FIONREAD, &kp0);
 			mc_mark_callback();
 			ret = iv_fd_pump_pump(ip);
+			arrivals_left = 0;
 			ioctl(s_from_r, FIONREAD, &sp1);
 			if (!sink_reader_closed)
 				ioctl(s_to_r, FIONREAD, &kp1);
@@ -481,8 +517,12 @@ static void exec_splice(void)
 			}
 		}
 		iv_fd_pump_destroy(ip);
+		if (band_in || band_out)
+			mc_fail("pump-bands", "after iv_fd_pump_destroy() of a completed pump the bands (in=%d,out=%d) are still requested", band_in, band_out);
 	} else if (errored) {
 		iv_fd_pump_destroy(ip);
+		if (band_in || band_out)
+			mc_fail("pump-bands", "after iv_fd_pump_destroy() of a failed pump the bands (in=%d,out=%d) are still requested", band_in, band_out);
 	} else if (!destroyed) {
 		mc_done();      /* horizon */
 	}
@@ -544,6 +584,8 @@ static void exec_many(void)
 	env_init();
 	if (mc_choose(2, MC_CONFIG, "no-splice"))
 		env_sc_errno[ENV_SC_SPLICE] = ENOSYS;
+	if (mc_arg_int("sc_fault", 0))
+		env_sc_fault_hook = pipe2_fault;
 	n = 18 + 2 * mc_choose(5, MC_CONFIG, "pumps");     /* 18 .. 26: below, at and above the cache size of 20 */
 	mc_obs("many n=%d splice=%d", n, !env_sc_errno[ENV_SC_SPLICE]);
 	allocs0 = env_lib_allocs_live;
